@@ -32,6 +32,7 @@ def run(F, chk):
     P4 = chk.rule('P4', 'every merge site shows that the merged lifecycle was never published (buffered_lcs.contains evidence) or removes it from the published table')
     O1 = chk.rule('O1', 'comparators that order lifecycles are key-based (same key of both arguments): total by construction')
     P5 = chk.rule('P5', 'every message handed to the outflow had its lifecycle marked for the table refresh (or just updated) since it was taken; mark-skipping caches are invalidated by every clear of the list')
+    P7 = chk.rule('P7', 'a possibly confirmed lifecycle is merged away only when all of its messages are still queued (queued count == nr_msgs)')
     check_update(F, P1)
     check_new(F, P1)
     check_merge_fn(F, P2)
@@ -40,6 +41,7 @@ def run(F, chk):
         check_relabel(F, st, P3)
         check_unpublish(F, st, P4)
         check_marked(F, st, P5)
+        check_merge_needs_all_queued(st, P7)
     P3.floor('lifecycle stage functions', len(lcstage.find_stage(F)), 1)
     comparators.check(F, O1, where=lambda b: any(re.search(r'Lifecycle\b', t) for t in b.arg_types()), floor=2)
     P6 = chk.rule('P6', 'the published table is written only through update (replace the single value), empty (remove the key), purge and refresh: every key readers see holds exactly one value')
@@ -662,3 +664,35 @@ def check_listing_chain(F, O3):
     else:
         O3.violation(('resume-chain-not-followed', b.path), 'the listing order consults `.resume_lc` but nowhere in a loop/recursion that looks the resumed lifecycle up: only the directly resumed lifecycle is taken into account, '
                      'so in a chain a <- b <- c whose start estimates cross, c can be listed before a', where=b.loc(None))
+
+
+# ---------------------------------------------------------------------------------------------
+# P7: a lifecycle is only merged away while all of its messages are still queued
+
+def check_merge_needs_all_queued(st, P7):
+    """When the previous lifecycle is no longer buffered, the newer lifecycle may already have been confirmed and some of its
+    messages delivered.  Merging it then would leave delivered messages with the id of a lifecycle that no longer exists
+    and move their count to another lifecycle.  So that merge is dominated by the equality of the number of queued
+    messages carrying its id (+ the current one) with its `nr_msgs`.  (In the other branch - previous lifecycle still
+    buffered - the merged lifecycle is buffered too, see P4/Q5: nothing of it was delivered.)"""
+    body, cfg, E = st.body, st.cfg, st.E
+    EF = ExprBuilder(cfg, fold_named=True)
+    P7.fn(body.path)
+    n = 0
+    for m in sorted(st.blocks_with('MERGE')):
+        if guard_key(st, m) != 'prev_buffered=False':
+            continue
+        n += 1
+        P7.sites += 1
+        ok = None
+        for (c, truth, D) in guards.known(cfg, EF, m):
+            sc = show(c)
+            if truth is True and sc.startswith('Eq(') and 'Iterator::count(' in sc and 'nr_msgs' in sc and ('VecDeque::iter(' in sc or 'buffered_msgs' in sc):
+                ok = sc
+        if ok:
+            P7.ok(sample={'merge_at': body.loc(body.blocks[m].term.sp), 'only_when': 'count of queued messages of the merged lifecycle (+1) == its nr_msgs'})
+        else:
+            P7.violation(('merge-with-delivered-messages', body.path), 'the merge at %s (previous lifecycle no longer buffered) is not dominated by the equality of the queued messages of the merged lifecycle with its nr_msgs: '
+                         'a lifecycle with already delivered messages can be merged away - those messages keep an id that denotes no lifecycle and the counts no longer add up' % body.loc(body.blocks[m].term.sp),
+                         where=body.loc(body.blocks[m].term.sp))
+    P7.floor('merge sites with a possibly confirmed merged lifecycle', n, 1)
